@@ -23,7 +23,7 @@ func init() {
 			"Oracle on the first rel / first target of each output tag that carries an href (as a browser reads duplicates): required tokens present per option and per host-qualification of the first surviving href, target=_blank where required, noopener whenever an a ends up with target=_blank, " +
 			"every token of each surviving input rel still present, required tokens not more frequent than in the input or once. non-trivial = at least one requirement applied to the output tag.",
 		Assumptions: []string{
-			"href forms whose 'has a host' status is contested between URL parsers (http:foo) and target values that differ from _blank only in case are deliberately outside the alphabet",
+			"target values that differ from _blank only in case are deliberately outside the alphabet; 'has a host' is judged as a browser does (for http / https the slashes after the scheme are optional)",
 			"requirements are evaluated only for elements that carry an href in the output",
 		},
 		QuickBudget: 50, ThoroughBudget: 800,
@@ -85,14 +85,16 @@ func c11Specs() []built {
 	return buildAll(out)
 }
 
+// hrefHasHost: does a browser resolve v (as written in the output) to a URL with a host of its own? For the special
+// schemes http / https the slashes are optional for a browser ("https:e.x/p" and "http:/e.x" name the host e.x).
 func hrefHasHost(v string) bool {
 	s := strings.ToLower(v)
-	for _, p := range []string{"http://", "https://", "//"} {
-		if strings.HasPrefix(s, p) && len(s) > len(p) && s[len(p)] != '/' {
-			return true
+	for _, p := range []string{"http:", "https:"} {
+		if strings.HasPrefix(s, p) {
+			return strings.Trim(s[len(p):], "/\\") != ""
 		}
 	}
-	return false
+	return strings.HasPrefix(s, "//") && len(s) > 2 && s[2] != '/'
 }
 
 func firstAttr(as []html.Attribute, key string) (string, bool) {
